@@ -39,9 +39,12 @@ func freePort() int {
 }
 
 func startServer(file string, cache, preload bool) *updogServer {
-	bin := os.Getenv("VCHECK_UPDOG_BIN")
+	return startServerBin(os.Getenv("VCHECK_UPDOG_BIN"), nil, file, cache, preload)
+}
+
+func startServerBin(bin string, env []string, file string, cache, preload bool) *updogServer {
 	if bin == "" {
-		rt.Harnessf("VCHECK_UPDOG_BIN not set")
+		rt.Harnessf("updog binary not set (VCHECK_UPDOG_BIN / VCHECK_UPDOG_RACE_BIN)")
 	}
 	for attempt := 0; attempt < 5; attempt++ {
 		s := &updogServer{addr: fmt.Sprintf("127.0.0.1:%d", freePort()), stderr: &bytes.Buffer{}, exited: make(chan struct{}), file: file, cache: cache, pre: preload}
@@ -50,6 +53,7 @@ func startServer(file string, cache, preload bool) *updogServer {
 			args = append(args, "-p")
 		}
 		s.cmd = exec.Command(bin, args...)
+		s.cmd.Env = append(os.Environ(), env...)
 		s.cmd.Stderr = s.stderr
 		s.cmd.Stdout = s.stderr
 		s.cmd.SysProcAttr = &syscall.SysProcAttr{Pdeathsig: syscall.SIGKILL}
